@@ -9,7 +9,7 @@ PYTHONPATH="$W/src" timeout 120 /venv/bin/python "$D/demo.py" >/tmp/seedverify/$
 if git apply --check "$D/patch.diff" 2>/dev/null; then git apply "$D/patch.diff"; a=ok
 elif git apply --3way "$D/patch.diff" >/dev/null 2>&1; then a=ok3way
 else a=fail; fi
-b=$(/tmp/seed/run_baseline.sh "$W" 2>/dev/null | grep -o '[0-9]*/326' | head -1)
+b=$("$(dirname "$(readlink -f "$0")")/run_baseline_at.sh" "$W" 2>/dev/null | grep -o '[0-9]*/326' | head -1)
 PYTHONPATH="$W/src" timeout 120 /venv/bin/python "$D/demo.py" >/tmp/seedverify/$id.mut.log 2>&1; m=$?
 cd /; git -C /repo worktree remove --force "$W"
 echo "$id CLEAN_DEMO=$c APPLY=$a BASELINE=$b MUT_DEMO=$m"
